@@ -1,3 +1,642 @@
-import Proofs.KDefs
+import Proofs.Lemmas.C20
+/-! C20 – Rect / Size / Insets / rounding algebra (kernel model `Kurbo/Kernel.lean`, arbitrary lawful scalar `K`:
+    an ordered field with exact `⌊⌋ ⌈⌉`, e.g. ℚ or ℝ).  Vocabulary (`Rect.Nonneg`, `Rect.ContainsClosed`, `IsInt`,
+    `Rect.IsIntegral`, `Point.Le` …) and helper lemmas: `Proofs/Lemmas/C20.lean`.
+
+    PROVED (all statements are about the model functions exactly as translated):
+    * containment: `containsRect_iff_closed_points` (`contains_rect` = inclusion of closed point sets),
+      `contains_rect_order` (partial order), `contains_rect_iff_union_eq` (NO hypothesis on the operands).
+    * union: `union_lub`, `union_closed_points`, `union_comm`, `union_assoc`, `union_self`, `union_pt_spec`.
+    * intersect: `intersect_glb` (always non-negative extent; contained in both when they overlap; greatest such;
+      zero width or height when disjoint), `intersect_disjoint_zero_area`, `intersect_closed_points`, `intersect_comm`.
+    * `contains_half_open`, `contains_corners`, `overlaps_symm`, `overlaps_iff_closed_meet`,
+      `not_overlaps_iff_separated`.
+    * `abs_from_points`, `abs_spec`.
+    * `expand_least` (ALL rectangles of non-negative extent, zero extent included), `expand_abs_least` (any corner
+      order), `expand_of_integral`, `expand_idem`; `trunc_greatest` (ALL rectangles of non-negative extent),
+      `trunc_nonneg_iff` (the extent of `trunc` is non-negative iff an integer rectangle fits), `trunc_of_integral`,
+      `trunc_idem`, `trunc_le_expand` – for the repaired code that branches on `x0 <= x1`.
+    * insets: `insets_add_comm`, `inset_cancel`, `inset_cancel_abs`, `inset_sub_add_cancel`, `add_insets_spec`,
+      `inflate_spec`, `rect_sub_rect_spec` (`b + (a - b) = a`, only `b` of non-negative extent), `rect_sub_rect_unique`,
+      `rect_sub_insets_sub_rect`.
+    * rounding: `scalar_rounding`, `scalar_expand_away`, `scalar_trunc_toward`, `scalar_round_nearest`,
+      `scalar_rounding_integral`, `point_rounding`, `vec2_rounding`, `size_rounding`, `rect_rounding`,
+      `rounding_dispatch`.
+
+    NOT PROVED / out of scope here:
+    * nothing about IEEE doubles (NaN, ±inf, -0.0, overflow): `K` is an ordered field with exact floor/ceil.
+    * `Rect.round`/`Rect.floor`/`Rect.ceil` are only related coordinate-wise (`rect_rounding`); no claim that
+      `Rect.round` preserves containment or size.
+    * the converse "`a.intersect b = b` ⇒ `a` contains `b`" is FALSE for zero-extent `b` (a = [0,½], b = [1,1]) and is
+      not stated. -/
+set_option linter.unusedSectionVars false
 namespace Kurbo
+variable {K : Type} [Field K] [LinearOrder K] [IsStrictOrderedRing K] [FloorRing K] [Scalar K] [LawfulScalar K]
+
+/-! ### containment is inclusion of point sets -/
+
+/-- `a.contains_rect b` ⇔ every point of the closed box `b` lies in the closed box `a` (for `b` of non-negative extent) -/
+theorem containsRect_iff_closed_points (a b : Rect K) (hb : b.Nonneg) :
+    a.contains_rect b = true ↔ ∀ p, b.ContainsClosed p → a.ContainsClosed p := by
+  rw [Rect.contains_rect_iff]; exact Rect.containsRectP_iff_closed hb
+example : (⟨1, 1, 2, 3⟩ : Rect ℚ).Nonneg := by norm_num [Rect.Nonneg]
+
+/-! ### 1. union = least upper bound -/
+
+/-- the union has non-negative extent, contains both operands, and is contained in every rectangle containing both.
+    (Only the first conjunct needs a hypothesis, and only `ha`.) -/
+theorem union_lub (a b c : Rect K) (ha : a.Nonneg) (_hb : b.Nonneg) :
+    (a.union b).Nonneg ∧ (a.union b).contains_rect a = true ∧ (a.union b).contains_rect b = true ∧
+    (c.contains_rect a = true → c.contains_rect b = true → c.contains_rect (a.union b) = true) := by
+  simp only [Rect.contains_rect_iff, Rect.union_eq, Rect.ContainsRectP, Rect.Nonneg] at *
+  refine ⟨⟨?_, ?_⟩, ⟨min_le_left _ _, min_le_left _ _, le_max_left _ _, le_max_left _ _⟩,
+    ⟨min_le_right _ _, min_le_right _ _, le_max_right _ _, le_max_right _ _⟩, ?_⟩
+  · exact (min_le_left _ _).trans (ha.1.trans (le_max_left _ _))
+  · exact (min_le_left _ _).trans (ha.2.trans (le_max_left _ _))
+  · rintro ⟨h1, h2, h3, h4⟩ ⟨g1, g2, g3, g4⟩
+    exact ⟨le_min h1 g1, le_min h2 g2, max_le h3 g3, max_le h4 g4⟩
+example : (⟨0, 0, 2, 2⟩ : Rect ℚ).Nonneg ∧ (⟨1, -1, 3, 1⟩ : Rect ℚ).Nonneg := by norm_num [Rect.Nonneg]
+example : (⟨0, 0, 2, 2⟩ : Rect ℚ).union ⟨1, -1, 3, 1⟩ = ⟨0, -1, 3, 2⟩ := by decide +kernel
+
+/-- every point of either operand is a point of the union -/
+theorem union_closed_points (a b : Rect K) (p : Point K) (h : a.ContainsClosed p ∨ b.ContainsClosed p) :
+    (a.union b).ContainsClosed p := by
+  simp only [Rect.union_eq, Rect.ContainsClosed] at *
+  rcases h with ⟨h1, h2, h3, h4⟩ | ⟨h1, h2, h3, h4⟩
+  · exact ⟨(min_le_left _ _).trans h1, h2.trans (le_max_left _ _), (min_le_left _ _).trans h3, h4.trans (le_max_left _ _)⟩
+  · exact ⟨(min_le_right _ _).trans h1, h2.trans (le_max_right _ _), (min_le_right _ _).trans h3,
+      h4.trans (le_max_right _ _)⟩
+
+example : (⟨1, -1, 3, 1⟩ : Rect ℚ).ContainsClosed ⟨3, 0⟩ := by norm_num [Rect.ContainsClosed]
+
+theorem union_comm (a b : Rect K) : a.union b = b.union a := by
+  simp only [Rect.union_eq, Rect.mk.injEq]
+  exact ⟨min_comm _ _, min_comm _ _, max_comm _ _, max_comm _ _⟩
+theorem union_assoc (a b c : Rect K) : (a.union b).union c = a.union (b.union c) := by
+  simp only [Rect.union_eq, Rect.mk.injEq]
+  exact ⟨min_assoc _ _ _, min_assoc _ _ _, max_assoc _ _ _, max_assoc _ _ _⟩
+theorem union_self (a : Rect K) : a.union a = a := by
+  simp only [Rect.union_eq, min_self, max_self]
+
+/-- `union_pt` is the union with the degenerate rectangle at the point: it contains the rectangle and the point and is
+    the least such -/
+theorem union_pt_spec (a c : Rect K) (p : Point K) (ha : a.Nonneg) :
+    a.union_pt p = a.union ⟨p.x, p.y, p.x, p.y⟩ ∧ (a.union_pt p).Nonneg ∧
+    (a.union_pt p).contains_rect a = true ∧ (a.union_pt p).ContainsClosed p ∧
+    (c.contains_rect a = true → c.ContainsClosed p → c.contains_rect (a.union_pt p) = true) := by
+  simp only [Rect.contains_rect_iff, Rect.union_eq, Rect.union_pt_eq, Rect.ContainsRectP, Rect.Nonneg,
+    Rect.ContainsClosed] at *
+  refine ⟨trivial, ⟨?_, ?_⟩, ⟨min_le_left _ _, min_le_left _ _, le_max_left _ _, le_max_left _ _⟩,
+    ⟨min_le_right _ _, le_max_right _ _, min_le_right _ _, le_max_right _ _⟩, ?_⟩
+  · exact (min_le_left _ _).trans (ha.1.trans (le_max_left _ _))
+  · exact (min_le_left _ _).trans (ha.2.trans (le_max_left _ _))
+  · rintro ⟨h1, h2, h3, h4⟩ ⟨g1, g2, g3, g4⟩
+    exact ⟨le_min h1 g1, le_min h2 g3, max_le h3 g2, max_le h4 g4⟩
+example : (⟨0, 0, 2, 2⟩ : Rect ℚ).union_pt ⟨3, 1⟩ = ⟨0, 0, 3, 2⟩ := by decide +kernel
+example : (⟨0, 0, 2, 2⟩ : Rect ℚ).Nonneg := by norm_num [Rect.Nonneg]
+
+/-! ### 2. intersect = greatest lower bound (zero area when disjoint) -/
+
+/-- * the intersection always has non-negative extent;
+    * if the operands overlap it is contained in both;
+    * every rectangle of non-negative extent contained in both is contained in it;
+    * if the operands do not overlap it has zero width or zero height. -/
+theorem intersect_glb (a b c : Rect K) (ha : a.Nonneg) (hb : b.Nonneg) :
+    (a.intersect b).Nonneg ∧
+    (a.overlaps b = true → a.contains_rect (a.intersect b) = true ∧ b.contains_rect (a.intersect b) = true) ∧
+    (c.Nonneg → a.contains_rect c = true → b.contains_rect c = true → (a.intersect b).contains_rect c = true) ∧
+    (a.overlaps b = false → (a.intersect b).width = 0 ∨ (a.intersect b).height = 0) := by
+  simp only [Rect.contains_rect_iff, Rect.not_overlaps_iff, Rect.overlaps_iff, Rect.width_eq, Rect.height_eq,
+    Rect.intersect_eq, Rect.ContainsRectP, Rect.Nonneg, Rect.Separated] at *
+  obtain ⟨hax, hay⟩ := ha
+  obtain ⟨hbx, hby⟩ := hb
+  refine ⟨⟨le_max_right _ _, le_max_right _ _⟩, ?_, ?_, ?_⟩
+  · rintro ⟨o1, o2, o3, o4⟩
+    refine ⟨⟨le_max_left _ _, le_max_left _ _, ?_, ?_⟩, ⟨le_max_right _ _, le_max_right _ _, ?_, ?_⟩⟩
+    · exact max_le (min_le_left _ _) (max_le hax o2)
+    · exact max_le (min_le_left _ _) (max_le hay o4)
+    · exact max_le (min_le_right _ _) (max_le o1 hbx)
+    · exact max_le (min_le_right _ _) (max_le o3 hby)
+  · rintro - ⟨h1, h2, h3, h4⟩ ⟨g1, g2, g3, g4⟩
+    exact ⟨max_le h1 g1, max_le h2 g2, le_max_of_le_left (le_min h3 g3), le_max_of_le_left (le_min h4 g4)⟩
+  · rintro (h | h | h | h)
+    · left
+      rw [sub_eq_zero]
+      exact max_eq_right ((min_le_right _ _).trans (h.le.trans (le_max_left _ _)))
+    · left
+      rw [sub_eq_zero]
+      exact max_eq_right ((min_le_left _ _).trans (h.le.trans (le_max_right _ _)))
+    · right
+      rw [sub_eq_zero]
+      exact max_eq_right ((min_le_right _ _).trans (h.le.trans (le_max_left _ _)))
+    · right
+      rw [sub_eq_zero]
+      exact max_eq_right ((min_le_left _ _).trans (h.le.trans (le_max_right _ _)))
+example : (⟨0, 0, 2, 2⟩ : Rect ℚ).Nonneg ∧ (⟨1, -1, 3, 1⟩ : Rect ℚ).Nonneg ∧ (⟨1, 0, 2, 1⟩ : Rect ℚ).Nonneg ∧
+    (⟨0, 0, 2, 2⟩ : Rect ℚ).overlaps ⟨1, -1, 3, 1⟩ = true ∧
+    (⟨0, 0, 2, 2⟩ : Rect ℚ).intersect ⟨1, -1, 3, 1⟩ = ⟨1, 0, 2, 1⟩ := by
+  refine ⟨by norm_num [Rect.Nonneg], by norm_num [Rect.Nonneg], by norm_num [Rect.Nonneg], by decide +kernel,
+    by decide +kernel⟩
+example : (⟨0, 0, 1, 1⟩ : Rect ℚ).overlaps ⟨2, 0, 3, 1⟩ = false ∧
+    (⟨0, 0, 1, 1⟩ : Rect ℚ).intersect ⟨2, 0, 3, 1⟩ = ⟨2, 0, 2, 1⟩ := by
+  constructor <;> decide +kernel
+
+/-- disjoint operands (of any corner order) give `is_zero_area` and area `0` -/
+theorem intersect_disjoint_zero_area (a b : Rect K) (h : a.overlaps b = false) :
+    (a.intersect b).is_zero_area = true ∧ (a.intersect b).area = 0 := by
+  have key : (a.intersect b).x1 = (a.intersect b).x0 ∨ (a.intersect b).y1 = (a.intersect b).y0 := by
+    simp only [Rect.not_overlaps_iff, Rect.Separated, Rect.intersect_eq] at *
+    rcases h with h | h | h | h
+    · left; exact max_eq_right ((min_le_right _ _).trans (h.le.trans (le_max_left _ _)))
+    · left; exact max_eq_right ((min_le_left _ _).trans (h.le.trans (le_max_right _ _)))
+    · right; exact max_eq_right ((min_le_right _ _).trans (h.le.trans (le_max_left _ _)))
+    · right; exact max_eq_right ((min_le_left _ _).trans (h.le.trans (le_max_right _ _)))
+  refine ⟨(Rect.is_zero_area_iff _).mpr key, ?_⟩
+  rw [Rect.area_eq]
+  rcases key with k | k <;> rw [k] <;> ring
+example : (⟨0, 0, 1, 1⟩ : Rect ℚ).overlaps ⟨2, 0, 3, 1⟩ = false := by decide +kernel
+
+/-- when the operands meet, the closed point set of the intersection is the intersection of the point sets -/
+theorem intersect_closed_points (a b : Rect K) (p : Point K) (ha : a.Nonneg) (hb : b.Nonneg)
+    (ho : a.overlaps b = true) :
+    (a.intersect b).ContainsClosed p ↔ a.ContainsClosed p ∧ b.ContainsClosed p := by
+  simp only [Rect.overlaps_iff, Rect.intersect_eq, Rect.ContainsClosed, Rect.Nonneg] at *
+  obtain ⟨o1, o2, o3, o4⟩ := ho
+  have ex : max (min a.x1 b.x1) (max a.x0 b.x0) = min a.x1 b.x1 :=
+    max_eq_left (max_le (le_min ha.1 o1) (le_min o2 hb.1))
+  have ey : max (min a.y1 b.y1) (max a.y0 b.y0) = min a.y1 b.y1 :=
+    max_eq_left (max_le (le_min ha.2 o3) (le_min o4 hb.2))
+  rw [ex, ey]
+  simp only [max_le_iff, le_min_iff]
+  tauto
+example : (⟨0, 0, 2, 2⟩ : Rect ℚ).Nonneg ∧ (⟨2, 2, 3, 3⟩ : Rect ℚ).Nonneg ∧
+    (⟨0, 0, 2, 2⟩ : Rect ℚ).overlaps ⟨2, 2, 3, 3⟩ = true ∧
+    (⟨0, 0, 2, 2⟩ : Rect ℚ).intersect ⟨2, 2, 3, 3⟩ = ⟨2, 2, 2, 2⟩ := by
+  refine ⟨by norm_num [Rect.Nonneg], by norm_num [Rect.Nonneg], by decide +kernel, by decide +kernel⟩
+
+theorem intersect_comm (a b : Rect K) : a.intersect b = b.intersect a := by
+  simp only [Rect.intersect_eq, Rect.mk.injEq]
+  refine ⟨max_comm _ _, max_comm _ _, ?_, ?_⟩
+  · rw [min_comm a.x1, max_comm a.x0]
+  · rw [min_comm a.y1, max_comm a.y0]
+
+/-! ### 3. point containment is half-open -/
+
+theorem contains_half_open (r : Rect K) (p : Point K) :
+    r.contains p = true ↔ r.x0 ≤ p.x ∧ p.x < r.x1 ∧ r.y0 ≤ p.y ∧ p.y < r.y1 :=
+  Rect.contains_iff r p
+/-- in particular the low corner is inside and the high corner is outside (positive extent) -/
+theorem contains_corners (r : Rect K) (h : r.x0 < r.x1 ∧ r.y0 < r.y1) :
+    r.contains ⟨r.x0, r.y0⟩ = true ∧ r.contains ⟨r.x1, r.y1⟩ = false ∧
+    r.contains ⟨r.x1, r.y0⟩ = false ∧ r.contains ⟨r.x0, r.y1⟩ = false := by
+  refine ⟨?_, ?_, ?_, ?_⟩
+  · rw [contains_half_open]; exact ⟨le_rfl, h.1, le_rfl, h.2⟩
+  all_goals
+    rw [← Bool.not_eq_true, contains_half_open]
+    simp only [lt_self_iff_false, false_and, and_false, not_false_eq_true]
+example : (⟨0, 0, 1, 2⟩ : Rect ℚ).x0 < (⟨0, 0, 1, 2⟩ : Rect ℚ).x1 ∧ (⟨0, 0, 1, 2⟩ : Rect ℚ).y0 < (⟨0, 0, 1, 2⟩ : Rect ℚ).y1 := by
+  norm_num
+example : (⟨0, 0, 1, 2⟩ : Rect ℚ).contains ⟨0, 0⟩ = true ∧ (⟨0, 0, 1, 2⟩ : Rect ℚ).contains ⟨1, 1⟩ = false := by
+  decide +kernel
+
+/-! ### 4. overlaps -/
+
+theorem overlaps_symm (a b : Rect K) : a.overlaps b = b.overlaps a := by
+  rw [Bool.eq_iff_iff, Rect.overlaps_iff, Rect.overlaps_iff]; tauto
+
+/-- `overlaps` ⇔ the closed rectangles share a point (touching edges or corners count) -/
+theorem overlaps_iff_closed_meet (a b : Rect K) (ha : a.Nonneg) (hb : b.Nonneg) :
+    a.overlaps b = true ↔ ∃ p, a.ContainsClosed p ∧ b.ContainsClosed p := by
+  rw [Rect.overlaps_iff]
+  simp only [Rect.ContainsClosed, Rect.Nonneg] at *
+  constructor
+  · rintro ⟨o1, o2, o3, o4⟩
+    exact ⟨⟨max a.x0 b.x0, max a.y0 b.y0⟩, ⟨le_max_left _ _, max_le ha.1 o2, le_max_left _ _, max_le ha.2 o4⟩,
+      ⟨le_max_right _ _, max_le o1 hb.1, le_max_right _ _, max_le o3 hb.2⟩⟩
+  · rintro ⟨p, ⟨h1, h2, h3, h4⟩, ⟨g1, g2, g3, g4⟩⟩
+    exact ⟨h1.trans g2, g1.trans h2, h3.trans g4, g3.trans h4⟩
+example : (⟨0, 0, 2, 2⟩ : Rect ℚ).Nonneg ∧ (⟨2, 2, 3, 3⟩ : Rect ℚ).Nonneg ∧
+    (⟨0, 0, 2, 2⟩ : Rect ℚ).overlaps ⟨2, 2, 3, 3⟩ = true := by
+  refine ⟨by norm_num [Rect.Nonneg], by norm_num [Rect.Nonneg], by decide +kernel⟩
+
+/-- `overlaps` is false exactly when the rectangles are strictly separated along an axis -/
+theorem not_overlaps_iff_separated (a b : Rect K) :
+    a.overlaps b = false ↔ (b.x1 < a.x0 ∨ a.x1 < b.x0 ∨ b.y1 < a.y0 ∨ a.y1 < b.y0) :=
+  Rect.not_overlaps_iff a b
+
+/-! ### 5. containment is `union = container` -/
+
+/-- no hypothesis on the operands is needed -/
+theorem contains_rect_iff_union_eq (a b : Rect K) : a.contains_rect b = true ↔ a.union b = a := by
+  cases a; cases b
+  simp only [Rect.contains_rect_iff, Rect.union_eq, Rect.ContainsRectP, Rect.mk.injEq, min_eq_left_iff,
+    max_eq_left_iff]
+
+/-- containment is a partial order on rectangles -/
+theorem contains_rect_order (a b c : Rect K) :
+    a.contains_rect a = true ∧
+    (a.contains_rect b = true → b.contains_rect c = true → a.contains_rect c = true) ∧
+    (a.contains_rect b = true → b.contains_rect a = true → a = b) := by
+  simp only [Rect.contains_rect_iff]
+  exact ⟨Rect.ContainsRectP.refl a, Rect.ContainsRectP.trans, Rect.ContainsRectP.antisymm⟩
+
+/-! ### 6. abs / from_points -/
+
+theorem abs_from_points (p q : Point K) :
+    Rect.from_points p q = (Rect.new p.x p.y q.x q.y).abs ∧
+    (Rect.from_points p q).Nonneg ∧
+    Rect.from_points p q = ⟨min p.x q.x, min p.y q.y, max p.x q.x, max p.y q.y⟩ ∧
+    Rect.from_points p q = Rect.from_points q p ∧
+    (Rect.from_points p q).width = |q.x - p.x| ∧ (Rect.from_points p q).height = |q.y - p.y| ∧
+    (Rect.from_points p q).ContainsClosed p ∧ (Rect.from_points p q).ContainsClosed q := by
+  refine ⟨rfl, ?_, Rect.from_points_eq p q, ?_, ?_, ?_, ?_, ?_⟩
+  · simp only [Rect.from_points_eq, Rect.Nonneg]
+    exact ⟨min_le_max, min_le_max⟩
+  · simp only [Rect.from_points_eq, Rect.mk.injEq]
+    exact ⟨min_comm _ _, min_comm _ _, max_comm _ _, max_comm _ _⟩
+  · simp only [Rect.from_points_eq, Rect.width_eq]
+    rw [max_sub_min_eq_abs', abs_sub_comm]
+  · simp only [Rect.from_points_eq, Rect.height_eq]
+    rw [max_sub_min_eq_abs', abs_sub_comm]
+  · simp only [Rect.from_points_eq, Rect.ContainsClosed]
+    exact ⟨min_le_left _ _, le_max_left _ _, min_le_left _ _, le_max_left _ _⟩
+  · simp only [Rect.from_points_eq, Rect.ContainsClosed]
+    exact ⟨min_le_right _ _, le_max_right _ _, min_le_right _ _, le_max_right _ _⟩
+example : Rect.from_points (⟨3, 0⟩ : Point ℚ) ⟨1, 2⟩ = ⟨1, 0, 3, 2⟩ := by decide +kernel
+
+/-- `abs` has non-negative extent, the same extents (`|width|`, `|height|`, `|area|`), is idempotent, fixes exactly the
+    rectangles of non-negative extent, and agrees with `from_points` of the two stored corners -/
+theorem abs_spec (r : Rect K) :
+    r.abs.Nonneg ∧ r.abs.width = |r.width| ∧ r.abs.height = |r.height| ∧ r.abs.area = |r.area| ∧
+    r.abs.abs = r.abs ∧ (r.abs = r ↔ r.Nonneg) ∧ r.abs = Rect.from_points ⟨r.x0, r.y0⟩ ⟨r.x1, r.y1⟩ := by
+  have hn : r.abs.Nonneg := by
+    simp only [Rect.abs_eq, Rect.Nonneg]; exact ⟨min_le_max, min_le_max⟩
+  have hw : r.abs.width = |r.width| := by
+    simp only [Rect.abs_eq, Rect.width_eq]; rw [max_sub_min_eq_abs', abs_sub_comm]
+  have hh : r.abs.height = |r.height| := by
+    simp only [Rect.abs_eq, Rect.height_eq]; rw [max_sub_min_eq_abs', abs_sub_comm]
+  refine ⟨hn, hw, hh, ?_, hn.abs_eq_self, ?_, ?_⟩
+  · have e1 : r.abs.area = r.abs.width * r.abs.height := by rw [Rect.area_eq, Rect.width_eq, Rect.height_eq]
+    have e2 : r.area = r.width * r.height := by rw [Rect.area_eq, Rect.width_eq, Rect.height_eq]
+    rw [e1, e2, hw, hh, abs_mul]
+  · constructor
+    · intro h; rw [← h]; exact hn
+    · exact Rect.Nonneg.abs_eq_self
+  · rw [Rect.from_points_eq, Rect.abs_eq]
+example : (⟨3, 0, 1, 2⟩ : Rect ℚ).abs = ⟨1, 0, 3, 2⟩ := by decide +kernel
+
+/-! ### 7. expand = least integer-cornered superset -/
+
+/-- for every rectangle of non-negative extent (zero extent included) `expand` is integer-cornered, contains the
+    rectangle, and is contained in every integer-cornered rectangle that contains it -/
+theorem expand_least (r : Rect K) (h : r.Nonneg) :
+    r.expand.IsIntegral ∧ r.expand.Nonneg ∧ r.expand.contains_rect r = true ∧
+    ∀ q : Rect K, q.IsIntegral → q.contains_rect r = true → q.contains_rect r.expand = true := by
+  simp only [Rect.contains_rect_iff, h.expand_eq, Rect.ContainsRectP, Rect.IsIntegral]
+  refine ⟨⟨isInt_intCast _, isInt_intCast _, isInt_intCast _, isInt_intCast _⟩, ⟨?_, ?_⟩,
+    ⟨Int.floor_le _, Int.floor_le _, Int.le_ceil _, Int.le_ceil _⟩, ?_⟩
+  · exact (Int.floor_le _).trans (h.1.trans (Int.le_ceil _))
+  · exact (Int.floor_le _).trans (h.2.trans (Int.le_ceil _))
+  · rintro q ⟨i1, i2, i3, i4⟩ ⟨h1, h2, h3, h4⟩
+    exact ⟨i1.le_floor h1, i2.le_floor h2, i3.ceil_le h3, i4.ceil_le h4⟩
+example : (⟨1/2, 1/2, 1/2, 1/2⟩ : Rect ℚ).Nonneg := by norm_num [Rect.Nonneg]
+/-- zero extent at a non-integer coordinate: the unit cell around the point -/
+example : (⟨1/2, 1/2, 1/2, 1/2⟩ : Rect ℚ).expand = ⟨0, 0, 1, 1⟩ := by decide +kernel
+example : (⟨1/2, -3/2, 5/2, 1⟩ : Rect ℚ).expand = ⟨0, -2, 3, 1⟩ := by decide +kernel
+
+/-- any corner order: `expand` keeps the orientation of each axis, and its `abs` is the least integer-cornered
+    rectangle containing `r.abs` -/
+theorem expand_abs_least (r : Rect K) :
+    r.expand.abs.IsIntegral ∧ r.expand.abs.contains_rect r.abs = true ∧
+    (∀ q : Rect K, q.IsIntegral → q.contains_rect r.abs = true → q.contains_rect r.expand.abs = true) ∧
+    r.expand.abs = r.abs.expand := by
+  have key : r.expand.abs = r.abs.expand := by
+    have hn : r.abs.Nonneg := by
+      simp only [Rect.abs_eq, Rect.Nonneg]; exact ⟨min_le_max, min_le_max⟩
+    rw [hn.expand_eq, Rect.abs_eq r.expand, Rect.expand_eq, Rect.abs_eq r]
+    simp only [Rect.mk.injEq]
+    have hx : ∀ a b : K, a ≤ b → (⌊a⌋ : K) ≤ (⌈b⌉ : K) := fun a b hab =>
+      (Int.floor_le _).trans (hab.trans (Int.le_ceil _))
+    refine ⟨?_, ?_, ?_, ?_⟩
+    · rcases le_or_gt r.x0 r.x1 with hc | hc
+      · rw [if_pos hc, if_pos hc, min_eq_left hc, min_eq_left (hx _ _ hc)]
+      · rw [if_neg (not_le.mpr hc), if_neg (not_le.mpr hc), min_eq_right hc.le, min_eq_right (hx _ _ hc.le)]
+    · rcases le_or_gt r.y0 r.y1 with hc | hc
+      · rw [if_pos hc, if_pos hc, min_eq_left hc, min_eq_left (hx _ _ hc)]
+      · rw [if_neg (not_le.mpr hc), if_neg (not_le.mpr hc), min_eq_right hc.le, min_eq_right (hx _ _ hc.le)]
+    · rcases le_or_gt r.x0 r.x1 with hc | hc
+      · rw [if_pos hc, if_pos hc, max_eq_right hc, max_eq_right (hx _ _ hc)]
+      · rw [if_neg (not_le.mpr hc), if_neg (not_le.mpr hc), max_eq_left hc.le, max_eq_left (hx _ _ hc.le)]
+    · rcases le_or_gt r.y0 r.y1 with hc | hc
+      · rw [if_pos hc, if_pos hc, max_eq_right hc, max_eq_right (hx _ _ hc)]
+      · rw [if_neg (not_le.mpr hc), if_neg (not_le.mpr hc), max_eq_left hc.le, max_eq_left (hx _ _ hc.le)]
+  have hn : r.abs.Nonneg := by
+    simp only [Rect.abs_eq, Rect.Nonneg]; exact ⟨min_le_max, min_le_max⟩
+  obtain ⟨e1, -, e3, e4⟩ := expand_least r.abs hn
+  rw [key]
+  exact ⟨e1, e3, e4, rfl⟩
+example : (⟨5/2, 1, 1/2, -3/2⟩ : Rect ℚ).expand = ⟨3, 1, 0, -2⟩ := by decide +kernel
+
+/-- integer-cornered rectangles (any corner order) are fixed; hence `expand` is idempotent -/
+theorem expand_of_integral (r : Rect K) (h : r.IsIntegral) : r.expand = r := by
+  obtain ⟨i1, i2, i3, i4⟩ := h
+  rw [Rect.expand_eq]; cases r
+  simp only [i1.floor_eq, i1.ceil_eq, i2.floor_eq, i2.ceil_eq, i3.floor_eq, i3.ceil_eq,
+    i4.floor_eq, i4.ceil_eq, ite_self]
+theorem expand_idem (r : Rect K) : r.expand.expand = r.expand := by
+  apply expand_of_integral
+  rw [Rect.expand_eq]
+  refine ⟨?_, ?_, ?_, ?_⟩ <;> (simp only; split_ifs <;> exact isInt_intCast _)
+example : (⟨0, -2, 3, 1⟩ : Rect ℚ).IsIntegral := ⟨⟨0, by norm_num⟩, ⟨-2, by norm_num⟩, ⟨3, by norm_num⟩, ⟨1, by norm_num⟩⟩
+
+/-! ### 8. trunc = greatest integer-cornered subset -/
+
+/-- for every rectangle of non-negative extent: `trunc` is integer-cornered; when its extent is non-negative it is
+    contained in the rectangle; and every integer-cornered rectangle of non-negative extent contained in `r` is
+    contained in `r.trunc`.  (When no integer rectangle fits, e.g. `x0 = x1 = 1/2`, the result has negative extent.) -/
+theorem trunc_greatest (r : Rect K) (h : r.Nonneg) :
+    r.trunc.IsIntegral ∧ (r.trunc.Nonneg → r.contains_rect r.trunc = true) ∧
+    ∀ q : Rect K, q.IsIntegral → q.Nonneg → r.contains_rect q = true → r.trunc.contains_rect q = true := by
+  simp only [Rect.contains_rect_iff, h.trunc_eq, Rect.ContainsRectP, Rect.IsIntegral]
+  refine ⟨⟨isInt_intCast _, isInt_intCast _, isInt_intCast _, isInt_intCast _⟩, fun _ =>
+    ⟨Int.le_ceil _, Int.le_ceil _, Int.floor_le _, Int.floor_le _⟩, ?_⟩
+  rintro q ⟨i1, i2, i3, i4⟩ - ⟨h1, h2, h3, h4⟩
+  exact ⟨i1.ceil_le h1, i2.ceil_le h2, i3.le_floor h3, i4.le_floor h4⟩
+example : (⟨1/2, 0, 1/2, 2⟩ : Rect ℚ).Nonneg := by norm_num [Rect.Nonneg]
+/-- zero width at a non-integer `x`: no integer rectangle fits; the result is reversed on that axis -/
+example : (⟨1/2, 0, 1/2, 2⟩ : Rect ℚ).trunc = ⟨1, 0, 0, 2⟩ := by decide +kernel
+example : (⟨1/2, -3/2, 5/2, 1⟩ : Rect ℚ).trunc = ⟨1, -1, 2, 1⟩ := by decide +kernel
+
+/-- `r.trunc` has non-negative extent exactly when some integer-cornered rectangle of non-negative extent fits in `r`
+    (so the sign of the extent of `trunc` is the emptiness test) -/
+theorem trunc_nonneg_iff (r : Rect K) (h : r.Nonneg) :
+    r.trunc.Nonneg ↔ ∃ q : Rect K, q.IsIntegral ∧ q.Nonneg ∧ r.contains_rect q = true := by
+  obtain ⟨t1, t2, t3⟩ := trunc_greatest r h
+  constructor
+  · intro hn; exact ⟨r.trunc, t1, hn, t2 hn⟩
+  · rintro ⟨q, qi, qn, qc⟩
+    have := (Rect.contains_rect_iff _ _).mp (t3 q qi qn qc)
+    exact ⟨this.1.trans (qn.1.trans this.2.2.1), this.2.1.trans (qn.2.trans this.2.2.2)⟩
+
+example : (⟨1/2, 0, 1/2, 2⟩ : Rect ℚ).Nonneg ∧ ¬ (⟨1/2, 0, 1/2, 2⟩ : Rect ℚ).trunc.Nonneg := by
+  have : (⟨1/2, 0, 1/2, 2⟩ : Rect ℚ).trunc = ⟨1, 0, 0, 2⟩ := by decide +kernel
+  rw [this]; norm_num [Rect.Nonneg]
+
+/-- integer-cornered rectangles (any corner order) are fixed; hence `trunc` is idempotent -/
+theorem trunc_of_integral (r : Rect K) (h : r.IsIntegral) : r.trunc = r := by
+  obtain ⟨i1, i2, i3, i4⟩ := h
+  rw [Rect.trunc_eq]; cases r
+  simp only [i1.floor_eq, i1.ceil_eq, i2.floor_eq, i2.ceil_eq, i3.floor_eq, i3.ceil_eq,
+    i4.floor_eq, i4.ceil_eq, ite_self]
+theorem trunc_idem (r : Rect K) : r.trunc.trunc = r.trunc := by
+  apply trunc_of_integral
+  rw [Rect.trunc_eq]
+  refine ⟨?_, ?_, ?_, ?_⟩ <;> (simp only; split_ifs <;> exact isInt_intCast _)
+
+example : (⟨3, 1, 0, -2⟩ : Rect ℚ).IsIntegral := ⟨⟨3, by norm_num⟩, ⟨1, by norm_num⟩, ⟨0, by norm_num⟩, ⟨-2, by norm_num⟩⟩
+example : (⟨3, 1, 0, -2⟩ : Rect ℚ).trunc = ⟨3, 1, 0, -2⟩ := by decide +kernel
+
+/-- `trunc ⊆ r ⊆ expand` whenever `trunc` is non-degenerate -/
+theorem trunc_le_expand (r : Rect K) (h : r.Nonneg) (ht : r.trunc.Nonneg) :
+    r.expand.contains_rect r.trunc = true := by
+  have h1 := (Rect.contains_rect_iff _ _).mp ((trunc_greatest r h).2.1 ht)
+  have h2 := (Rect.contains_rect_iff _ _).mp (expand_least r h).2.2.1
+  exact (Rect.contains_rect_iff _ _).mpr (h2.trans h1)
+example : (⟨1/2, -3/2, 5/2, 1⟩ : Rect ℚ).Nonneg ∧ (⟨1/2, -3/2, 5/2, 1⟩ : Rect ℚ).trunc.Nonneg := by
+  constructor
+  · norm_num [Rect.Nonneg]
+  · have : (⟨1/2, -3/2, 5/2, 1⟩ : Rect ℚ).trunc = ⟨1, -1, 2, 1⟩ := by decide +kernel
+    rw [this]; norm_num [Rect.Nonneg]
+
+/-! ### 9. insets: adding then subtracting is the identity while the extent stays non-negative -/
+
+/-- the two operand orders are the same function (`Insets + Rect` is the primitive, with `abs()` inside) -/
+theorem insets_add_comm (r : Rect K) (i : Insets K) : i + r = r + i ∧ i - r = r - i ∧ r - i = r + (-i) :=
+  ⟨rfl, rfl, rfl⟩
+
+/-- general form: only the intermediate result must have non-negative extent; the outcome is `r.abs` -/
+theorem inset_cancel_abs (r : Rect K) (i : Insets K) (h' : (r + i).Nonneg) : (r + i) - i = r.abs := by
+  rw [Rect.sub_Insets_eq, Rect.abs_eq]
+  simp only [Rect.Nonneg] at h'
+  rw [min_eq_left h'.1, min_eq_left h'.2, max_eq_right h'.1, max_eq_right h'.2]
+  simp only [Rect.add_Insets_eq, Rect.mk.injEq]
+  refine ⟨?_, ?_, ?_, ?_⟩ <;> ring
+
+theorem inset_cancel (r : Rect K) (i : Insets K) (h : r.Nonneg) (h' : (r + i).Nonneg) : (r + i) - i = r := by
+  rw [inset_cancel_abs r i h', h.abs_eq_self]
+example : (⟨0, 0, 4, 4⟩ : Rect ℚ).Nonneg ∧ ((⟨0, 0, 4, 4⟩ : Rect ℚ) + (⟨-1, 2, -2, 1/2⟩ : Insets ℚ)).Nonneg := by
+  constructor
+  · norm_num [Rect.Nonneg]
+  · have : ((⟨0, 0, 4, 4⟩ : Rect ℚ) + (⟨-1, 2, -2, 1/2⟩ : Insets ℚ)) = ⟨1, -2, 2, 9/2⟩ := by decide +kernel
+    rw [this]; norm_num [Rect.Nonneg]
+/-- the hypothesis is needed: shrinking past zero extent is not undone -/
+example : ((⟨0, 0, 1, 1⟩ : Rect ℚ) + (⟨-1, 0, -1, 0⟩ : Insets ℚ)) - (⟨-1, 0, -1, 0⟩ : Insets ℚ) = ⟨-1, 0, 2, 1⟩ := by
+  decide +kernel
+
+/-- the other order: subtracting then adding -/
+theorem inset_sub_add_cancel (r : Rect K) (i : Insets K) (h : r.Nonneg) (h' : (r - i).Nonneg) : (r - i) + i = r := by
+  rw [Rect.add_Insets_eq]
+  simp only [Rect.Nonneg] at h'
+  rw [min_eq_left h'.1, min_eq_left h'.2, max_eq_right h'.1, max_eq_right h'.2]
+  simp only [Rect.sub_Insets_eq]
+  cases r
+  simp only [Rect.Nonneg] at h
+  simp only [Rect.mk.injEq, min_eq_left h.1, min_eq_left h.2, max_eq_right h.1, max_eq_right h.2]
+  refine ⟨?_, ?_, ?_, ?_⟩ <;> ring
+example : (⟨0, 0, 4, 4⟩ : Rect ℚ).Nonneg ∧ ((⟨0, 0, 4, 4⟩ : Rect ℚ) - (⟨1, 1, 1, 1⟩ : Insets ℚ)).Nonneg := by
+  constructor
+  · norm_num [Rect.Nonneg]
+  · have : ((⟨0, 0, 4, 4⟩ : Rect ℚ) - (⟨1, 1, 1, 1⟩ : Insets ℚ)) = ⟨1, 1, 3, 3⟩ := by decide +kernel
+    rw [this]; norm_num [Rect.Nonneg]
+
+/-- adding insets to a rectangle of non-negative extent moves each edge outward by the inset; width and height grow by
+    `x_value` / `y_value` -/
+theorem add_insets_spec (r : Rect K) (i : Insets K) (h : r.Nonneg) :
+    r + i = (⟨r.x0 - i.x0, r.y0 - i.y0, r.x1 + i.x1, r.y1 + i.y1⟩ : Rect K) ∧
+    (r + i).width = r.width + i.x_value ∧ (r + i).height = r.height + i.y_value := by
+  have e : r + i = (⟨r.x0 - i.x0, r.y0 - i.y0, r.x1 + i.x1, r.y1 + i.y1⟩ : Rect K) := by
+    rw [Rect.add_Insets_eq]
+    simp only [Rect.Nonneg] at h
+    rw [min_eq_left h.1, min_eq_left h.2, max_eq_right h.1, max_eq_right h.2]
+  refine ⟨e, ?_, ?_⟩
+  · rw [e]; simp only [Rect.width_eq, Insets.x_value, scalar_norm]; ring
+  · rw [e]; simp only [Rect.height_eq, Insets.y_value, scalar_norm]; ring
+
+example : (⟨0, 0, 4, 4⟩ : Rect ℚ).Nonneg := by norm_num [Rect.Nonneg]
+example : (⟨0, 0, 4, 4⟩ : Rect ℚ) + (⟨1, 2, 3, 1/2⟩ : Insets ℚ) = ⟨-1, -2, 7, 9/2⟩ := by decide +kernel
+
+/-- `inflate` is adding uniform insets (for non-negative extent), and is undone by the opposite inflation (always) -/
+theorem inflate_spec (r : Rect K) (w h : K) :
+    (r.Nonneg → r.inflate w h = r + (⟨w, h, w, h⟩ : Insets K)) ∧ (r.inflate w h).inflate (-w) (-h) = r := by
+  constructor
+  · intro hn
+    rw [(add_insets_spec r _ hn).1, Rect.inflate_eq]
+  · cases r
+    simp only [Rect.inflate_eq, Rect.mk.injEq]
+    refine ⟨?_, ?_, ?_, ?_⟩ <;> ring
+
+example : (⟨0, 0, 4, 4⟩ : Rect ℚ).inflate 1 (1/2) = ⟨-1, -1/2, 5, 9/2⟩ := by decide +kernel
+/-- on a reversed rectangle `inflate` and `+ Insets` differ (the latter normalises with `abs()` first) -/
+example : (⟨4, 0, 0, 4⟩ : Rect ℚ).inflate 1 1 = ⟨3, -1, 1, 5⟩ ∧
+    (⟨4, 0, 0, 4⟩ : Rect ℚ) + (⟨1, 1, 1, 1⟩ : Insets ℚ) = ⟨-1, -1, 5, 5⟩ := by
+  constructor <;> decide +kernel
+
+/-! ### 10. the difference of two rectangles is the insets mapping one onto the other -/
+
+/-- `a - b` (an `Insets`) added to `b` gives `a`.  Only `b` needs non-negative extent (it passes through `abs()`). -/
+theorem rect_sub_rect_spec (a b : Rect K) (hb : b.Nonneg) : b + (a - b) = a := by
+  rw [(add_insets_spec b _ hb).1, Rect.sub_Rect_eq]
+  cases a
+  simp only [Rect.mk.injEq]
+  refine ⟨?_, ?_, ?_, ?_⟩ <;> ring
+example : (⟨1, 1, 2, 3⟩ : Rect ℚ).Nonneg := by norm_num [Rect.Nonneg]
+example : (⟨0, 0, 4, 4⟩ : Rect ℚ) - (⟨1, 1, 2, 3⟩ : Rect ℚ) = (⟨1, 1, 2, 1⟩ : Insets ℚ) := by decide +kernel
+
+/-- … and these are the only insets doing so -/
+theorem rect_sub_rect_unique (a b : Rect K) (i : Insets K) (hb : b.Nonneg) (h : b + i = a) : i = a - b := by
+  rw [(add_insets_spec b _ hb).1] at h
+  subst h
+  rw [Rect.sub_Rect_eq]
+  cases i
+  simp only [Insets.mk.injEq]
+  refine ⟨?_, ?_, ?_, ?_⟩ <;> ring
+
+example : (⟨1, 1, 2, 3⟩ : Rect ℚ).Nonneg ∧ (⟨1, 1, 2, 3⟩ : Rect ℚ) + (⟨1, 1, 2, 1⟩ : Insets ℚ) = ⟨0, 0, 4, 4⟩ := by
+  refine ⟨by norm_num [Rect.Nonneg], by decide +kernel⟩
+
+/-- subtracting the difference goes back: `a - (a - b) = b` for `a` of non-negative extent -/
+theorem rect_sub_insets_sub_rect (a b : Rect K) (ha : a.Nonneg) : a - (a - b) = b := by
+  rw [Rect.sub_Insets_eq, Rect.sub_Rect_eq]
+  simp only [Rect.Nonneg] at ha
+  rw [min_eq_left ha.1, min_eq_left ha.2, max_eq_right ha.1, max_eq_right ha.2]
+  cases b
+  simp only [Rect.mk.injEq]
+  refine ⟨?_, ?_, ?_, ?_⟩ <;> ring
+
+example : (⟨0, 0, 4, 4⟩ : Rect ℚ).Nonneg ∧
+    (⟨0, 0, 4, 4⟩ : Rect ℚ) - ((⟨0, 0, 4, 4⟩ : Rect ℚ) - (⟨1, 1, 2, 3⟩ : Rect ℚ)) = ⟨1, 1, 2, 3⟩ := by
+  refine ⟨by norm_num [Rect.Nonneg], by decide +kernel⟩
+/-- the hypothesis is needed: with `b` reversed, `b + (a - b)` is not `a` -/
+example : (⟨2, 0, 1, 1⟩ : Rect ℚ) + ((⟨0, 0, 4, 4⟩ : Rect ℚ) - (⟨2, 0, 1, 1⟩ : Rect ℚ)) = ⟨-1, 0, 5, 4⟩ := by
+  decide +kernel
+
+/-! ### 11. rounding helpers -/
+
+/-- `floor ≤ trunc ≤ ceil`, `floor ≤ round ≤ ceil`, `floor ≤ expand ≤ ceil` on scalars -/
+theorem scalar_rounding (x : K) :
+    Scalar.floor x ≤ Scalar.trunc x ∧ Scalar.trunc x ≤ Scalar.ceil x ∧
+    Scalar.floor x ≤ Scalar.round x ∧ Scalar.round x ≤ Scalar.ceil x ∧
+    Scalar.floor x ≤ fexpand x ∧ fexpand x ≤ Scalar.ceil x ∧
+    Scalar.floor x ≤ x ∧ x ≤ Scalar.ceil x :=
+  let ⟨h1, h2, h3, h4, h5, h6⟩ := scalar_round_facts x
+  ⟨h1, h2, h3, h4, h5, h6, by rw [sn_floor]; exact Int.floor_le x, by rw [sn_ceil]; exact Int.le_ceil x⟩
+
+/-- `expand` rounds away from zero: it is `floor` on negatives and `ceil` otherwise, so its magnitude is at least
+    `|x|`, it keeps the sign, and it is the nearest such integer -/
+theorem scalar_expand_away (x : K) :
+    fexpand x = (if x < 0 then Scalar.floor x else Scalar.ceil x) ∧ |x| ≤ |fexpand x| ∧ |fexpand x| < |x| + 1 ∧
+    (x < 0 → fexpand x < 0) ∧ (0 < x → 0 < fexpand x) ∧ (x = 0 → fexpand x = 0) := by
+  obtain ⟨s1, s2, s3⟩ := fexpand_sign x
+  refine ⟨by rw [sn_floor, sn_ceil]; exact fexpand_eq x, abs_le_abs_fexpand x, ?_, s1, s2, s3⟩
+  rw [fexpand_eq]; split_ifs with h
+  · have h1 : (⌊x⌋ : K) ≤ x := Int.floor_le x
+    have h2 := Int.lt_floor_add_one x
+    rw [abs_of_neg h, abs_of_neg (lt_of_le_of_lt h1 h)]; linarith
+  · have hx : 0 ≤ x := not_lt.mp h
+    have h1 : x ≤ (⌈x⌉ : K) := Int.le_ceil x
+    have h2 := Int.ceil_lt_add_one x
+    rw [abs_of_nonneg hx, abs_of_nonneg (hx.trans h1)]; exact h2
+
+/-- `trunc` rounds toward zero -/
+theorem scalar_trunc_toward (x : K) :
+    Scalar.trunc x = (if x < 0 then Scalar.ceil x else Scalar.floor x) ∧ |Scalar.trunc x| ≤ |x| ∧
+    |x| < |Scalar.trunc x| + 1 := by
+  refine ⟨by rw [sn_floor, sn_ceil]; exact strunc_eq x, abs_strunc_le x, ?_⟩
+  rw [sn_trunc]; split_ifs with h
+  · have h1 : (⌈x⌉ : K) ≤ 0 := by
+      have : ⌈x⌉ ≤ (0 : ℤ) := Int.ceil_le.mpr (by simpa using h.le)
+      exact_mod_cast this
+    have h2 := Int.ceil_lt_add_one x
+    rw [abs_of_nonpos h1, abs_of_neg h]; linarith
+  · have hx : 0 ≤ x := not_lt.mp h
+    have h1 : (0 : K) ≤ (⌊x⌋ : K) := by
+      have : (0 : ℤ) ≤ ⌊x⌋ := Int.floor_nonneg.mpr hx
+      exact_mod_cast this
+    rw [abs_of_nonneg h1, abs_of_nonneg hx]
+    exact Int.lt_floor_add_one x
+
+/-- `round` is within one half -/
+theorem scalar_round_nearest (x : K) : |Scalar.round x - x| ≤ 1/2 := abs_sround_sub_le x
+
+/-- all five helpers return integers -/
+theorem scalar_rounding_integral (x : K) :
+    IsInt (Scalar.floor x) ∧ IsInt (Scalar.ceil x) ∧ IsInt (Scalar.trunc x) ∧ IsInt (Scalar.round x) ∧
+    IsInt (fexpand x) :=
+  ⟨by rw [sn_floor]; exact isInt_intCast _, by rw [sn_ceil]; exact isInt_intCast _, isInt_strunc x, isInt_sround x,
+    isInt_fexpand x⟩
+example : Scalar.floor (-5/2 : ℚ) = -3 ∧ Scalar.trunc (-5/2 : ℚ) = -2 ∧ Scalar.round (-5/2 : ℚ) = -3 ∧
+    Scalar.ceil (-5/2 : ℚ) = -2 ∧ fexpand (-5/2 : ℚ) = -3 ∧ Scalar.round (5/2 : ℚ) = 3 ∧ fexpand (1/4 : ℚ) = 1 := by
+  decide +kernel
+
+/-- component-wise on `Point` -/
+theorem point_rounding (p : Point K) :
+    p.floor.Le p.trunc ∧ p.trunc.Le p.ceil ∧ p.floor.Le p.round ∧ p.round.Le p.ceil ∧
+    p.floor.Le p.expand ∧ p.expand.Le p.ceil ∧
+    |p.x| ≤ |p.expand.x| ∧ |p.y| ≤ |p.expand.y| ∧ |p.trunc.x| ≤ |p.x| ∧ |p.trunc.y| ≤ |p.y| := by
+  obtain ⟨x1, x2, x3, x4, x5, x6⟩ := scalar_round_facts p.x
+  obtain ⟨y1, y2, y3, y4, y5, y6⟩ := scalar_round_facts p.y
+  exact ⟨⟨x1, y1⟩, ⟨x2, y2⟩, ⟨x3, y3⟩, ⟨x4, y4⟩, ⟨x5, y5⟩, ⟨x6, y6⟩, abs_le_abs_fexpand _, abs_le_abs_fexpand _,
+    abs_strunc_le _, abs_strunc_le _⟩
+example : (⟨-5/2, 1/4⟩ : Point ℚ).expand = ⟨-3, 1⟩ ∧ (⟨-5/2, 1/4⟩ : Point ℚ).trunc = ⟨-2, 0⟩ ∧
+    (⟨-5/2, 1/4⟩ : Point ℚ).round = ⟨-3, 0⟩ := by decide +kernel
+
+/-- component-wise on `Vec2` -/
+theorem vec2_rounding (p : Vec2 K) :
+    p.floor.Le p.trunc ∧ p.trunc.Le p.ceil ∧ p.floor.Le p.round ∧ p.round.Le p.ceil ∧
+    p.floor.Le p.expand ∧ p.expand.Le p.ceil ∧
+    |p.x| ≤ |p.expand.x| ∧ |p.y| ≤ |p.expand.y| ∧ |p.trunc.x| ≤ |p.x| ∧ |p.trunc.y| ≤ |p.y| := by
+  obtain ⟨x1, x2, x3, x4, x5, x6⟩ := scalar_round_facts p.x
+  obtain ⟨y1, y2, y3, y4, y5, y6⟩ := scalar_round_facts p.y
+  exact ⟨⟨x1, y1⟩, ⟨x2, y2⟩, ⟨x3, y3⟩, ⟨x4, y4⟩, ⟨x5, y5⟩, ⟨x6, y6⟩, abs_le_abs_fexpand _, abs_le_abs_fexpand _,
+    abs_strunc_le _, abs_strunc_le _⟩
+
+/-- component-wise on `Size` -/
+theorem size_rounding (s : Size K) :
+    s.floor.Le s.trunc ∧ s.trunc.Le s.ceil ∧ s.floor.Le s.round ∧ s.round.Le s.ceil ∧
+    s.floor.Le s.expand ∧ s.expand.Le s.ceil ∧
+    |s.width| ≤ |s.expand.width| ∧ |s.height| ≤ |s.expand.height| ∧
+    |s.trunc.width| ≤ |s.width| ∧ |s.trunc.height| ≤ |s.height| := by
+  obtain ⟨x1, x2, x3, x4, x5, x6⟩ := scalar_round_facts s.width
+  obtain ⟨y1, y2, y3, y4, y5, y6⟩ := scalar_round_facts s.height
+  exact ⟨⟨x1, y1⟩, ⟨x2, y2⟩, ⟨x3, y3⟩, ⟨x4, y4⟩, ⟨x5, y5⟩, ⟨x6, y6⟩, abs_le_abs_fexpand _, abs_le_abs_fexpand _,
+    abs_strunc_le _, abs_strunc_le _⟩
+example : (⟨-5/2, 1/4⟩ : Size ℚ).expand = ⟨-3, 1⟩ := by decide +kernel
+
+/-- the methods dispatched through the `M…` classes are these functions -/
+theorem rounding_dispatch (p : Point K) (v : Vec2 K) (s : Size K) (r : Rect K) :
+    MFloor.floor p = p.floor ∧ MCeil.ceil p = p.ceil ∧ MRound.round p = p.round ∧ MTrunc.trunc p = p.trunc ∧
+    MExpand.expand p = p.expand ∧
+    MFloor.floor v = v.floor ∧ MCeil.ceil v = v.ceil ∧ MRound.round v = v.round ∧ MTrunc.trunc v = v.trunc ∧
+    MExpand.expand v = v.expand ∧
+    MFloor.floor s = s.floor ∧ MCeil.ceil s = s.ceil ∧ MRound.round s = s.round ∧ MTrunc.trunc s = s.trunc ∧
+    MExpand.expand s = s.expand ∧
+    MFloor.floor r = r.floor ∧ MCeil.ceil r = r.ceil ∧ MRound.round r = r.round ∧ MTrunc.trunc r = r.trunc ∧
+    MExpand.expand r = r.expand ∧ MAbs.abs r = r.abs :=
+  ⟨rfl, rfl, rfl, rfl, rfl, rfl, rfl, rfl, rfl, rfl, rfl, rfl, rfl, rfl, rfl, rfl, rfl, rfl, rfl, rfl, rfl⟩
+
+/-- `Rect.floor ≤ Rect.round ≤ Rect.ceil` coordinate-wise; for non-negative extent
+    `Rect.expand = (floor low corner, ceil high corner)` and `Rect.trunc = (ceil low corner, floor high corner)` -/
+theorem rect_rounding (r : Rect K) :
+    r.floor.CoordLe r.round ∧ r.round.CoordLe r.ceil ∧
+    (r.Nonneg → r.expand = ⟨r.floor.x0, r.floor.y0, r.ceil.x1, r.ceil.y1⟩ ∧
+      r.trunc = ⟨r.ceil.x0, r.ceil.y0, r.floor.x1, r.floor.y1⟩) := by
+  obtain ⟨-, -, a3, a4, -, -⟩ := scalar_round_facts r.x0
+  obtain ⟨-, -, b3, b4, -, -⟩ := scalar_round_facts r.y0
+  obtain ⟨-, -, c3, c4, -, -⟩ := scalar_round_facts r.x1
+  obtain ⟨-, -, d3, d4, -, -⟩ := scalar_round_facts r.y1
+  refine ⟨⟨a3, b3, c3, d3⟩, ⟨a4, b4, c4, d4⟩, fun h => ?_⟩
+  rw [h.expand_eq, h.trunc_eq, Rect.floor_eq, Rect.ceil_eq]
+  simp only [sn_floor, sn_ceil, and_self]
+example : (⟨1/2, -3/2, 5/2, 1⟩ : Rect ℚ).round = ⟨1, -2, 3, 1⟩ := by decide +kernel
+
 end Kurbo
